@@ -18,7 +18,7 @@ KNOWN_FILE = os.path.join(ROOT, "known_findings.json")
 
 class Entry:
     def __init__(self, name, fmode="real", imode="int", params=None, cap=None, budget=None, ad=(),
-                 ub_checks=False, note="", concretize_fptoi=False, lockmon=None, expect_reach=True, kinds=None, setup=None):
+                 ub_checks=False, note="", concretize_fptoi=False, shard=None, lockmon=None, expect_reach=True, kinds=None, setup=None):
         self.name = name
         self.fmode = fmode
         self.imode = imode
@@ -28,6 +28,7 @@ class Entry:
         self.ad = set(ad)
         self.ub_checks = ub_checks
         self.concretize_fptoi = concretize_fptoi
+        self.shard = shard
         self.note = note
         self.lockmon = lockmon
         self.expect_reach = expect_reach
@@ -36,7 +37,8 @@ class Entry:
 
     def label(self):
         p = ",".join("%s=%s" % kv for kv in sorted(self.params.items()))
-        return "%s[%s;%s/%s]" % (self.name, p, self.fmode, self.imode)
+        sh = "" if self.shard is None else ";shard %d/%d" % (self.shard[0] + 1, self.shard[1])
+        return "%s[%s;%s/%s%s]" % (self.name, p, self.fmode, self.imode, sh)
 
 
 def load_known():
@@ -92,11 +94,15 @@ class Runner:
         self.functions = set()
         self.witness = {}
         self.engine_stats = {}
+        self.quiet = False
+        self.replayed = {}
+        self.max_replays = 2
 
     def log(self, *a):
         s = " ".join(str(x) for x in a)
         self.log_lines.append(s)
-        print(s, flush=True)
+        if not self.quiet:
+            print(s, flush=True)
 
     # ------------------------------------------------------------------ build
     def prepare(self):
@@ -153,53 +159,66 @@ class Runner:
                  (self.tv["vectors"], self.tv["agree"]))
 
     # ------------------------------------------------------------------ symbolic runs
-    def run_entries(self):
-        entries = self.chk.entries(self.tier)
-        if self.only:
-            entries = [e for e in entries if self.only in e.name]
-        self.entries = entries
+    def explore(self, ent):
+        """symbolic execution of one entry -> list of (ent, eng, obligation)"""
         allq = []
-        for ent in entries:
-            t = time.time()
-            eng = interp.Engine(self.mod, fmode=ent.fmode, imode=ent.imode, params=ent.params, budget=ent.budget)
-            eng.ad_vars = ent.ad
-            eng.ub_checks = ent.ub_checks
-            eng.concretize_fptoi = ent.concretize_fptoi
-            if ent.lockmon:
-                eng.lockmon = ent.lockmon()
-            if ent.setup:
-                ent.setup(eng)
-            try:
-                res = eng.run_entry(ent.name)
-            except interp.Inconclusive as inc:
-                res = [("inconclusive", str(inc))]
-            except Exception as ex:
-                res = [("inconclusive", "engine exception: %s" % traceback.format_exc()[-1500:])]
-            self.functions |= eng.called
-            inc = [r for r in res if r[0] in ("inconclusive", "budget")]
-            for r in inc:
-                self.incomplete.append(dict(entry=ent.label(), why=r[1]))
-                self.log("[engine] INCOMPLETE %s: %s" % (ent.label(), r[1][:600]))
-            obs = self.dedupe(eng.obligations, ent)
-            for k, v in eng.stats.items():
-                if isinstance(v, (int, float)):
-                    self.engine_stats[k] = self.engine_stats.get(k, 0) + v
-            self.log("[engine] %s: %d paths (%d killed by assumptions, %d forks), %d obligations (%d distinct), "
-                     "%d reach, %d steps, %.1fs (feasibility %.1fs/%d queries)" %
-                     (ent.label(), eng.stats["paths"], eng.stats["killed"], eng.stats["forks"], len(eng.obligations),
-                      len(obs), len(eng.reached), eng.stats["steps"], time.time() - t, eng.stats["feas_time"],
-                      eng.stats["feas_queries"]))
-            for o in obs:
-                allq.append((ent, eng, o))
-            # reachability witness
-            self.witness[ent.label()] = dict(reached=len(eng.reached), sat=None)
-            if eng.reached:
-                allq.append((ent, eng, dict(id="witness:reach", kind="witness", goal=z3.BoolVal(False),
-                                            pc=eng.reached[0]["pc"], path=eng.reached[0]["path"], entry=ent.name,
-                                            note=None, fn=None)))
-            elif ent.expect_reach:
-                self.log("[engine] WARNING %s never reached vf_reach: harness is vacuous here" % ent.label())
+        t = time.time()
+        eng = interp.Engine(self.mod, fmode=ent.fmode, imode=ent.imode, params=ent.params, budget=ent.budget)
+        eng.ad_vars = ent.ad
+        eng.ub_checks = ent.ub_checks
+        eng.concretize_fptoi = ent.concretize_fptoi
+        eng.shard = ent.shard
+        if ent.lockmon:
+            eng.lockmon = ent.lockmon()
+        if ent.setup:
+            ent.setup(eng)
+        try:
+            res = eng.run_entry(ent.name)
+        except interp.Inconclusive as inc:
+            res = [("inconclusive", str(inc))]
+        except Exception as ex:
+            res = [("inconclusive", "engine exception: %s" % traceback.format_exc()[-1500:])]
+        self.functions |= eng.called
+        inc = [r for r in res if r[0] in ("inconclusive", "budget")]
+        for r in inc:
+            self.incomplete.append(dict(entry=ent.label(), why=r[1]))
+            self.log("[engine] INCOMPLETE %s: %s" % (ent.label(), r[1][:600]))
+        obs = self.dedupe(eng.obligations, ent)
+        for k, v in eng.stats.items():
+            if isinstance(v, (int, float)):
+                self.engine_stats[k] = self.engine_stats.get(k, 0) + v
+        self.log("[engine] %s: %d paths (%d killed by assumptions, %d forks), %d obligations (%d distinct), "
+                 "%d reach, %d steps, %.1fs (feasibility %.1fs/%d queries)" %
+                 (ent.label(), eng.stats["paths"], eng.stats["killed"], eng.stats["forks"], len(eng.obligations),
+                  len(obs), len(eng.reached), eng.stats["steps"], time.time() - t, eng.stats["feas_time"],
+                  eng.stats["feas_queries"]))
+        for o in obs:
+            allq.append((ent, eng, o))
+        # reachability witness
+        self.witness[ent.label()] = dict(reached=len(eng.reached), sat=None)
+        if eng.reached:
+            allq.append((ent, eng, dict(id="witness:reach", kind="witness", goal=z3.BoolVal(False),
+                                        pc=eng.reached[0]["pc"], path=eng.reached[0]["path"], entry=ent.name,
+                                        note=None, fn=None)))
+        elif ent.expect_reach:
+            self.log("[engine] WARNING %s never reached vf_reach: harness is vacuous here" % ent.label())
         return allq
+
+    def process_entry(self, idx):
+        """worker (forked): explore + solve + replay one entry; returns plain data"""
+        ent = self.entries[idx]
+        self.log_lines = []
+        self.results, self.violations, self.known_hits, self.incomplete = [], [], [], []
+        self.functions, self.witness, self.engine_stats = set(), {}, {}
+        t = time.time()
+        allq = self.explore(ent)
+        res = self.solve(allq)
+        self.judge(res)
+        self.log("[solve] %s: %d queries, %.1fs wall" % (ent.label(), len(res), time.time() - t))
+        return dict(results=self.results, violations=self.violations,
+                    known_hits=[(kf, rec) for kf, rec in self.known_hits], incomplete=self.incomplete,
+                    functions=self.functions, witness=self.witness, engine_stats=self.engine_stats,
+                    solver_time=self.pf.solver_time, log=self.log_lines)
 
     def dedupe(self, obligations, ent):
         seen = set()
@@ -235,7 +254,7 @@ class Runner:
                     asserts=asserts, flags=flags, logic=logic)
 
     def solve(self, allq):
-        pf = solve.Portfolio(self.workdir, jobs=16, quick_cap=self.quick_cap, cap=self.cap)
+        pf = solve.Portfolio(self.workdir, jobs=self.solver_jobs, quick_cap=self.quick_cap, cap=self.cap)
         self.pf = pf
         jobs = []
         for ent, eng, o in allq:
@@ -262,13 +281,13 @@ class Runner:
             return dict(ent=ent, eng=eng, o=o, verdict=v, solver=who, secs=secs, answers=answers, q=q,
                         used_defs=used_defs)
 
-        with ThreadPoolExecutor(max_workers=16) as ex:
+        with ThreadPoolExecutor(max_workers=self.solver_jobs) as ex:
             res = list(ex.map(work, prepared))
         return res
 
     # ------------------------------------------------------------------ replay
     def inputs_of(self, eng):
-        return {name: sv.e for name, (sv, kind) in eng.inputs.items()}
+        return {name: (sv.s if sv.s is not None else sv.e) for name, (sv, kind) in eng.inputs.items()}
 
     def concretise(self, eng, model):
         out = {}
@@ -311,6 +330,13 @@ class Runner:
 
     def handle_sat(self, r, rec, depth=0):
         ent, eng, o = r["ent"], r["eng"], r["o"]
+        key = (ent.label(), o["id"])
+        nrep = self.replayed.get(key, 0)
+        if nrep >= self.max_replays and depth == 0:
+            rec["status"] = "sat-not-replayed"
+            rec["why"] = "same entry and obligation id already replayed %d times" % nrep
+            return
+        self.replayed[key] = nrep + 1
         inputs = self.inputs_of(eng)
         # model over the full path condition so that every input gets a consistent value
         full = list(o["pc"]) + eng.side + ([] if not r["used_defs"] else o.get("defs", [])) + [z3.Not(o["goal"])]
@@ -407,12 +433,50 @@ class Runner:
     def run(self):
         self.prepare()
         self.translation_validation()
-        allq = self.run_entries()
+        entries = self.chk.entries(self.tier)
+        if self.only:
+            entries = [e for e in entries if self.only in e.name]
+        expanded = []
+        for e in entries:
+            if isinstance(e.shard, int):
+                import copy
+                for i in range(e.shard):
+                    e2 = copy.copy(e)
+                    e2.shard = (i, e.shard)
+                    expanded.append(e2)
+            else:
+                expanded.append(e)
+        entries = expanded
+        self.entries = entries
+        nproc = max(1, min(16, len(entries)))
+        self.solver_jobs = max(2, 16 // nproc)
+        self.solver_time = {}
+        global _RUNNER
+        _RUNNER = self
+        import multiprocessing as mp
         t = time.time()
-        res = self.solve(allq)
-        self.log("[solve] %d queries in %.1fs wall; solver seconds %s" %
-                 (len(res), time.time() - t, {k: round(v, 1) for k, v in self.pf.solver_time.items()}))
-        self.judge(res)
+        serial = nproc == 1 or bool(os.environ.get("VERIF_SERIAL"))
+        if serial:
+            outs = [dict(self.process_entry(i)) for i in range(len(entries))]
+        else:
+            ctx = mp.get_context("fork")
+            with ctx.Pool(nproc) as pool:
+                outs = pool.map(_work, range(len(entries)), chunksize=1)
+        self.results, self.violations, self.known_hits, self.incomplete = [], [], [], []
+        self.functions, self.witness, self.engine_stats = set(), {}, {}
+        for o in outs:
+            self.results += o["results"]
+            self.violations += o["violations"]
+            self.known_hits += o["known_hits"]
+            self.incomplete += o["incomplete"]
+            self.functions |= o["functions"]
+            self.witness.update(o["witness"])
+            for k, v in o["engine_stats"].items():
+                self.engine_stats[k] = self.engine_stats.get(k, 0) + v
+            for k, v in o["solver_time"].items():
+                self.solver_time[k] = self.solver_time.get(k, 0) + v
+        self.log("[entries] %d entries explored and solved in %.1fs wall on %d processes; solver seconds %s" %
+                 (len(entries), time.time() - t, nproc, {k: round(v, 1) for k, v in self.solver_time.items()}))
         # concrete test vectors that fail natively are violations too (replayed by construction)
         for nf in self.tv["native_fail"]:
             ent = Entry(nf["entry"], params=nf["params"])
@@ -456,7 +520,10 @@ class Runner:
 
     def write_evidence(self, st):
         chk = self.chk
-        total = sum(1 for r in self.results if r["kind"] != "witness")
+        nsimp = int(self.engine_stats.get("simplified_true", 0))
+        total = sum(1 for r in self.results if r["kind"] != "witness") + nsimp
+        st = dict(st)
+        st["discharged"] = st.get("discharged", 0) + nsimp
         samples = []
         for r in self.results[:400]:
             if len(samples) >= 12:
@@ -471,7 +538,7 @@ class Runner:
         for r in self.results:
             by_kind.setdefault(r["kind"], {}).setdefault(r["status"], 0)
             by_kind[r["kind"]][r["status"]] += 1
-        distinct = len({(r["entry"], r["id"], r["path"]) for r in self.results if r["kind"] != "witness" and "path" in r})
+        distinct = len({(r["entry"], r["id"], r["path"]) for r in self.results if r["kind"] != "witness" and "path" in r}) + nsimp
         ev = dict(
             property_id=self.pid, tier=self.tier, seed=self.seed, level="model_checking",
             wall_s=round(time.time() - self.t0, 2), violations=len(self.violations),
@@ -481,7 +548,9 @@ class Runner:
                 rule="one evaluation = one proof obligation (harness check, lemma, definedness, UB or memory-safety "
                      "condition) on one explored path of one harness entry, decided by an SMT solver for all values of "
                      "the symbolic inputs satisfying that path's condition; distinct = distinct (entry, obligation id, path); "
-                     "obligations whose condition folded to a concrete 'true' during execution are not counted",
+                     "obligations whose condition folded to a concrete 'true' during execution are not counted; obligations "
+                     "whose symbolic condition z3's simplifier rewrites to 'true' are counted as discharged (discharged_by_z3_simplifier) "
+                     "without a solver process",
                 samples=samples,
                 states=int(self.engine_stats.get("paths", 0)) or 1,
                 transitions=int(self.engine_stats.get("steps", 0)) or 1,
@@ -498,12 +567,13 @@ class Runner:
                 bounds=getattr(chk, "BOUNDS", {}).get(self.tier, getattr(chk, "BOUNDS", {})),
                 functions_encoded=sorted(_demangle(self.functions))[:400],
                 engine=self.engine_stats,
-                solver_seconds={k: round(v, 2) for k, v in self.pf.solver_time.items()},
+                solver_seconds={k: round(v, 2) for k, v in self.solver_time.items()},
                 translation_validation=dict(vectors=self.tv["vectors"], agree=self.tv["agree"],
                                             mismatches=self.tv["mismatch"][:5]),
                 reachability_witnesses=self.witness,
                 incomplete=self.incomplete[:20],
                 concrete_true_checks=int(self.engine_stats.get("concrete_true", 0)),
+                discharged_by_z3_simplifier=nsimp,
                 outside_claim=getattr(chk, "OUTSIDE", []),
                 explanation=getattr(chk, "CLAIM", ""),
             ),
@@ -544,6 +614,21 @@ def _demangle(names):
         return [x[:160] for x in p.stdout.split("\n") if x]
     except Exception:
         return names
+
+
+_RUNNER = None
+
+
+def _work(i):
+    import faulthandler, signal
+    faulthandler.register(signal.SIGUSR1, all_threads=True)
+    try:
+        return _RUNNER.process_entry(i)
+    except Exception:
+        ent = _RUNNER.entries[i]
+        return dict(results=[], violations=[], known_hits=[], functions=set(), witness={}, engine_stats={},
+                    solver_time={}, log=["[worker] EXCEPTION %s: %s" % (ent.label(), traceback.format_exc()[-2000:])],
+                    incomplete=[dict(entry=ent.label(), why="worker exception: " + traceback.format_exc()[-800:])])
 
 
 def main(argv):
